@@ -45,6 +45,14 @@ WITNESS_PROJECTS = [
 ]
 
 
+ODD_LOCALE_NAMES = ["not a locale", "e", "en--US", "x_y", "toolonglanguagetag", "en-", "123", "é", "en US", "EN-us",
+                    # well-formed BCP-47 tags that are more than a language identifier (extensions, private use, variants, scripts)
+                    "ar-u-nu-latn", "th-u-ca-buddhist", "en-x-custom", "en-t-ja", "de-CH-1996", "sr-Latn-RS", "zh-Hant-TW", "en-u-ca-gregory-x-y",
+                    "x-private", "und", "root", "i-klingon", "en-US-u-va-posix",
+                    # names that are identifiers of a special kind: raw identifiers, keywords, underscores, letters whose upper case is longer
+                    "r#en", "r#fr", "r#type", "r#Self", "type", "fn", "self", "Self", "crate", "_", "__", "_en", "en_US", "En", "ǆ", "ŉ", "ß", "fr-", "-fr", "f-r"]
+
+
 def mutate_file_text(rng, text):
     """malformed stream: byte-level mutations of a well-formed file"""
     ops = rng.range(1, 3)
@@ -77,6 +85,81 @@ def has_tail_into_cycle(inherits):
         if cur in seen and cur != start:
             return True
     return False
+
+
+# ---- the other file formats: what YAML and JSON5 can say and JSON cannot
+FORMAT_TOKENS = {
+    "yaml": [".inf", "-.inf", "+.inf", ".nan", ".NaN", ".Inf", "0x1F", "0o17", "~", "null", "!!float 1", "!!str 1", "1_000", "1e3", "1.0e+400", "-1.0e+400",
+             "&a 1", "*a", "yes", "on", "2001-12-14", "'it''s'", "|\n    block\n", ">\n    folded\n", "? x", "- 1", "[1, 2", "{a: 1", "\"\\x41\"", "!!binary aGk=", "0.1e-400",
+             "18446744073709551616", "-9223372036854775809", "1.7976931348623157e308", "4.9e-324", "- .inf", "[.inf]", "{count: .nan}"],
+    "json5": ["Infinity", "-Infinity", "+Infinity", "NaN", "-NaN", "0x1F", "-0x1F", ".5", "5.", "+1", "'single'", "'it\\'s'", "1e400", "-1e400", "1e-400", "// c\n1", "/* c */ 1",
+              "[1, 2,]", "{a: 1,}", "{unquoted: 'x'}", "\"line\\\ncontinued\"", "18446744073709551616", "-9223372036854775809", "0x7fffffffffffffffffff", "[Infinity]", "{count: NaN}",
+              "1.7976931348623157e308", "5e-324"],
+}
+CODEGEN_FEATURES = ["interpolate_display", "plurals", "format_datetime", "format_list", "format_nums", "format_currency", "icu_compiled_data", "ssr"]
+
+
+def format_cases(rng, fmt, n):
+    """en-only projects in `fmt`: every format-specific token as a top-level value, as a member of a sequence value (a range / plural position),
+    as a foreign-key target and spliced over a scalar of a generated file; plus generated projects written in that format (a third of them mutated)"""
+    ext = proj.EXT[fmt]
+    cfg = '[package]\nname = "p"\n[package.metadata.leptos-i18n]\ndefault = "en"\nlocales = ["en"]\n'
+    out = []
+    q = (lambda k: k) if fmt == "yaml" else json.dumps
+    for t in FORMAT_TOKENS[fmt]:
+        if fmt == "yaml":
+            texts = [f"k: {t}\n", f"k:\n  - f64\n  - [a, {t}]\n  - [b]\n", f"k: {t}\nj: \"$t(k)\"\ns: \"x {{{{ v }}}}\"\nr: \"$t(s, {{\\\"v\\\": \\\"$t(k)\\\"}})\"\n",
+                     f"k_one: {t}\nk_other: {t}\n", f"g:\n  k: {t}\n", f"{t}\n", f"k:\n  - i8\n  - {{count: {t}, value: a}}\n  - {{value: b}}\n"]
+        else:
+            texts = ["{k: %s}" % t, '{k: ["f64", ["a", %s], ["b"]]}' % t, '{k: %s, j: "$t(k)", s: "x {{ v }}", r: "$t(s, {\\"v\\": \\"$t(k)\\"})"}' % t,
+                     "{k_one: %s, k_other: %s}" % (t, t), "{g: {k: %s}}" % t, t, '{k: ["i8", {count: %s, value: "a"}, {value: "b"}]}' % t]
+        for text in texts:
+            out.append({"cargo_toml": cfg, "files": [[f"locales/en.{ext}", text]], "token": t})
+    import re as _re
+    scalar = _re.compile(r'(?<=: )("(?:[^"\\]|\\.)*"|-?[0-9][0-9.eE+-]*|true|false|null)')
+    for _ in range(n):
+        p = proj.gen_project(rng)
+        r = proj.harness_req(p, fmt)
+        files = r["files"]
+        k = rng.below(3)
+        if k == 0 and files:
+            i = rng.below(len(files))
+            ms = list(scalar.finditer(files[i][1]))
+            if ms:
+                m = rng.pick(ms)
+                files[i] = [files[i][0], files[i][1][:m.start()] + rng.pick(FORMAT_TOKENS[fmt]) + files[i][1][m.end():]]
+        elif k == 1:
+            files = [[f, mutate_file_text(rng, t)] for f, t in files]
+        out.append({"cargo_toml": r["cargo_toml"], "files": files})
+    return out
+
+
+def formats_stage(ctx, rng):
+    for fmt in ("yaml", "json5"):
+        binp = build_parser(ctx, fmt)
+        bing = cargo_build(ctx, "codegen_h", features=[fmt + "_files"] + CODEGEN_FEATURES, variant=fmt + "_files")
+        if binp is None or bing is None:
+            continue
+        cases = format_cases(rng, fmt, ctx.budget(400, 8000))
+        pres = run_lines_resilient(binp, [dict(c, op="pipeline", operands=[]) for c in cases], timeout=3600)
+        gres = run_lines_resilient(bing, [dict(c, op="codegen") for c in cases], timeout=3600)
+        for c, pr, gr in zip(cases, pres, gres):
+            ctx.seen({"fmt": fmt, "files": c["files"], "cfg": c["cargo_toml"]})
+            res = pr.get("result", pr)
+            k = "ok" if "ok" in res else ("err" if "err" in res else "PANIC")
+            g = "ok" if "ok" in gr else ("err" if "err" in gr else "PANIC")
+            ctx.count(f"{fmt}:parser:{k}")
+            ctx.count(f"{fmt}:codegen:{g}")
+            if "panic" in pr or "crash" in pr or "panic" in res:
+                report_violation(ctx, "pipeline-panics", {"case": dict(c, op="pipeline"), "impl": pr, "format": fmt,
+                                                         "expected_by_spec": "a result or a descriptive error, never a panic / crash / timeout",
+                                                         "harness": f"parser_h ({fmt} build) pipeline"})
+            elif "panic" in gr or "crash" in gr:
+                report_violation(ctx, "codegen-panics", {"case": dict(c, op="codegen"), "impl": gr, "format": fmt, "parser_result": str(res)[:300],
+                                                        "expected_by_spec": "generated code or a descriptive error, never a panic",
+                                                        "harness": f"codegen_h ({fmt} build) codegen"})
+            elif (g == "ok") != (k == "ok") and "cfg" in pr:
+                note_model_mismatch(ctx, "G/codegen accepts iff parser accepts", dict(c, format=fmt), {"codegen": str(gr)[:300], "parser": str(res)[:300]})
 
 
 def run(ctx):
@@ -168,6 +251,12 @@ def run(ctx):
     bing = cargo_build(ctx, "codegen_h")
     if bing is not None:
         greqs = [dict(q, op="codegen") for q in reqs]
+        # locale names of every odd kind, as a second locale and as the default one
+        for name in ODD_LOCALE_NAMES:
+            for dflt, locs in (("en", ["en", name]), (name, [name])):
+                greqs.append({"op": "codegen", "odd_locale": name, "cargo_toml": '[package]\nname = "p"\n[package.metadata.leptos-i18n]\ndefault = %s\nlocales = %s\n' % (json.dumps(dflt), json.dumps(locs)),
+                              "files": [[f"locales/{l}.json", '{"a": "x"}'] for l in locs]})
+        impl = impl + run_lines_resilient(binp, [dict(q, op="pipeline", operands=[]) for q in greqs[len(reqs):]], timeout=600)
         gres = run_lines_resilient(bing, greqs, timeout=3600)
         for q, r, pr in zip(greqs, gres, impl):
             k = "ok" if "ok" in r else ("err" if "err" in r else "PANIC")
@@ -176,16 +265,15 @@ def run(ctx):
                 report_violation(ctx, "codegen-panics", {"case": q, "impl": r, "parser_result": str(pr.get("result"))[:300],
                                                         "expected_by_spec": "generated code or a descriptive error, never a panic",
                                                         "harness": "codegen_h codegen"})
-            elif ("ok" in r) != ("ok" in pr.get("result", {})) and "cfg" in pr:
+            elif ("ok" in r) != ("ok" in pr.get("result", {})) and "cfg" in pr and "odd_locale" not in q:     # (the generator, not the parser, validates locale names)
                 note_model_mismatch(ctx, "G/codegen accepts iff parser accepts", q, {"codegen": str(r)[:300], "parser": str(pr.get("result"))[:300]})
+    # ---- (c+) the same, through the YAML and JSON5 builds of parser and generator
+    formats_stage(ctx, rng)
     # ---- (c'') build helper: parse + every public query on projects incl. odd locale names
     binb = cargo_build(ctx, "build_h")
     if binb is not None:
         odd = []
-        for name in ["not a locale", "e", "en--US", "x_y", "toolonglanguagetag", "en-", "123", "é", "en US", "EN-us",
-                     # well-formed BCP-47 tags that are more than a language identifier (extensions, private use, variants, scripts)
-                     "ar-u-nu-latn", "th-u-ca-buddhist", "en-x-custom", "en-t-ja", "de-CH-1996", "sr-Latn-RS", "zh-Hant-TW", "en-u-ca-gregory-x-y",
-                     "x-private", "und", "root", "i-klingon", "en-US-u-va-posix"]:
+        for name in ODD_LOCALE_NAMES:
             odd.append({"op": "icu", "work": os.path.join(WORK, "c09b"),
                         "cargo_toml": '[package]\nname = "p"\n[package.metadata.leptos-i18n]\ndefault = "en"\nlocales = ["en", %s]\n' % json.dumps(name),
                         "files": [["locales/en.json", '{"a": "x"}'], [f"locales/{name}.json", '{"a": "y"}']]})
